@@ -619,7 +619,11 @@ def cases(draw, tier):
     *batch, m, n = shp
     batch = tuple(batch)
     case = {"ep": ep, "recipe": r}
-    if ep == "root_decomposition" and draw(st.integers(0, 2)) == 0:
+    if ep == "root_decomposition" and draw(st.integers(0, 2)) == 0 and not any(
+        nd["op"] in ("KroneckerAddedDiag", "SumKronecker", "Kronecker", "KroneckerDiag", "KroneckerTri", "ConstantDiag", "Identity", "Diag") for nd in R.walk(r)
+    ):
+        # (not over (scaled) identities / diagonal and Kronecker-structured nodes: a Lanczos run from one start vector breaks
+        #  down at the first step there - the open findings F-C09-first-step-breakdown / F-C04-lanczos-structured-solve)
         # call history on the same object: the Lanczos inverse root is computed first and caches its by-product root;
         # the differentiated root_decomposition() is then a cache hit on an output of that earlier Function call
         case["after_root_inv"] = True
@@ -1924,13 +1928,25 @@ def _symeig_root_repeated(case):
         for n in R.walk(x):
             if n["op"] == "Mul":
                 cands += n["args"]
+    def repeated(c):
+        M = refmodel.dense(c)
+        if M.shape[-1] == M.shape[-2] and M.shape[-1] > 1:
+            w = torch.linalg.eigvalsh(0.5 * (M + M.mT))
+            return bool(((w[..., 1:] - w[..., :-1]) <= 1e-9 * w.abs().max(dim=-1, keepdim=True)[0].clamp_min(1e-300)).any())
+        return False
+
     for c in cands:
-        if any(n["op"] == "KeOps" for n in R.walk(c)):
-            M = refmodel.dense(c)
-            if M.shape[-1] == M.shape[-2] and M.shape[-1] > 1:
-                w = torch.linalg.eigvalsh(0.5 * (M + M.mT))
-                if bool(((w[..., 1:] - w[..., :-1]) <= 1e-9 * w.abs().max(dim=-1, keepdim=True)[0]).any()):
-                    return True
+        if any(n["op"] == "KeOps" for n in R.walk(c)) and repeated(c):
+            return True
+    # the same differentiation through eigenVECTORS: the eigen-structured roots of KroneckerAddedDiag / SumKronecker
+    # (root_decomposition builds Q diag(.) from the symeig of every Kronecker factor) for a factor with a repeated eigenvalue
+    if case["ep"] == "root_decomposition":
+        for x in recs:
+            for n in R.walk(x):
+                if n["op"] in ("KroneckerAddedDiag", "SumKronecker"):
+                    for k in R.walk(n):
+                        if k["op"] == "Kronecker" and any(repeated(f) for f in k["args"]):
+                            return True
     return False
 
 
